@@ -71,7 +71,9 @@ pub fn run_prop(ctx: &Ctx, sink: &mut Sink) {
         use std::os::unix::ffi::OsStrExt;
         let dir = ctx.scratch("blank").join("pad").join("w");
         std::fs::create_dir_all(&dir).unwrap();
-        let cands: Vec<&[u8]> = vec![b" ", b"\t", b"\n", b" \n\t ", b"  ", b"'", b"\"q", b"\\", b"x", b"a b", b"\x0b", b"\r"];
+        // … and names that merely begin like an operator: only the bare words ! ( , ) are not starting points
+        let cands: Vec<&[u8]> = vec![b" ", b"\t", b"\n", b" \n\t ", b"  ", b"'", b"\"q", b"\\", b"x", b"a b", b"\x0b", b"\r",
+            b"(old) b", b"!imp", b",", b")", b"(()", b"!!", b"+x", b"{}", b";"];
         let mut roots: Vec<(Vec<u8>, String)> = vec![];
         for _ in 0..rng.range(1, 4) {
             let nm = *rng.pick(&cands);
